@@ -92,9 +92,13 @@ var ghostBigOf func(b []byte) int
 //@   modifies st.assignedSplits, st.LastAssignedSplitID
 //@   ensures forall(func(k string) bool { return has(st.assignedSplits, k) == (old(has(st.assignedSplits, k)) || idIn(shards, len(shards), k)) })
 //@   ensures st.LastAssignedSplitID >= old(st.LastAssignedSplitID)
-//@   ensures len(shards) > 0 ==> st.LastAssignedSplitID >= shards[len(shards)-1].ShardID
+//@   ensures forall(0, len(shards), func(j int) bool { return st.LastAssignedSplitID >= shards[j].ShardID })
 //@   loop 0:
 //@     invariant forall(func(k string) bool { return has(st.assignedSplits, k) == (old(has(st.assignedSplits, k)) || idIn(shards, idx_, k)) })
+//@     invariant st.LastAssignedSplitID == old(st.LastAssignedSplitID)
+//@   loop 1:
+//@     invariant forall(func(k string) bool { return has(st.assignedSplits, k) == (old(has(st.assignedSplits, k)) || idIn(shards, len(shards), k)) })
+//@     invariant st.LastAssignedSplitID >= old(st.LastAssignedSplitID) && forall(0, idx_, func(j int) bool { return st.LastAssignedSplitID >= shards[j].ShardID })
 
 //@ func SplitTracker.RemoveSplits
 //@   property C16
